@@ -313,7 +313,7 @@ func famFrag(w *World) {
 func (w *World) planCorruption() {
 	whichCall := scn(len(w.Calls))
 	onResp := scnChance(1, 2)
-	fragSel := scn(3) // 0 first, 1 any middle, 2 last
+	fragSel := scn(4) // 0 first, 1 any middle, 2 last, 3 a fragment that carries no argument bytes at all
 	field := scn(4)   // 0 chunk data, 1 checksum byte, 2 chunk data near the end, 3 the checksum TYPE of a later fragment
 	mode := scn(3)
 	if field == 3 {
@@ -370,9 +370,23 @@ func (w *World) planCorruption() {
 			if f.More() {
 				return -1
 			}
+		case 3:
+			// only its checksum field can be altered: nothing else in it belongs to the arguments
+			total := 0
+			for ci, c := range f.Chunks {
+				if !(first && ci == 0) {
+					total += len(c)
+				}
+			}
+			if total != 0 || f.CsumOff <= 0 {
+				return -1
+			}
 		}
 		// pick the byte
 		off := -1
+		if fragSel == 3 {
+			off = f.CsumOff + scn(4)
+		}
 		switch field {
 		case 1:
 			if f.CsumOff > 0 {
@@ -408,7 +422,7 @@ func (w *World) planCorruption() {
 		} else {
 			target.CorruptReq = true
 		}
-		w.probe(fmt.Sprintf("C02.corrupt.%s.%s", []string{"first", "middle", "last"}[fragSel], []string{"chunk", "checksum", "chunk-end", "checksum-type"}[field]))
+		w.probe(fmt.Sprintf("C02.corrupt.%s.%s", []string{"first", "middle", "last", "empty"}[fragSel], []string{"chunk", "checksum", "chunk-end", "checksum-type"}[field]))
 		return off
 	}
 	prev := w.linkHook
